@@ -281,7 +281,7 @@ func confirmRealtime(c *Case) Verdict {
 	}
 	defer w.kill()
 	old := caseWatchdog
-	v, _ := w.runReq(workerReq{Case: c, Realtime: true}, 200*time.Second)
+	v, _ := w.runReq(workerReq{Case: c, Realtime: true}, 450*time.Second)
 	_ = old
 	return v
 }
